@@ -52,6 +52,9 @@ func instantiate(s Scenario, r *rand.Rand, tok0 int) (b *Built, err error) {
 	if s.Mode == "convert" || s.Mode == "convcall" {
 		s.NDef = 0 // Convert has no function to attach defaults to
 	}
+	if s.AllCtor {
+		s.NDef = len(s.Inputs)
+	}
 	// the default options live in a slice with spare capacity, as a caller who built it with append would
 	// pass it: the library must not write into that capacity
 	defaults := make([]am.Arg, 0, 16)
@@ -93,6 +96,7 @@ func instantiate(s Scenario, r *rand.Rand, tok0 int) (b *Built, err error) {
 	}
 	// now and then the converters are given to NewFunc as well (defaults of the target) instead of to the call
 	convsAtCtor := s.Mode == "call" && s.Bad == "" && !strings.HasPrefix(s.Family, "random/conc") && !strings.HasPrefix(s.Family, "C16") && r.Intn(4) == 0
+	convsAtCtor = convsAtCtor || (s.AllCtor && s.Mode == "call" && s.Bad == "")
 	if convsAtCtor {
 		defaults = append(defaults, b.CnvArgs...)
 		b.CnvArgs = nil
@@ -478,7 +482,7 @@ func (b *Built) Execute(r *rand.Rand) {
 		if s.Target.Form != "built" && s.Bad == "" && r.Intn(4) == 0 {
 			b.wrapperCall()
 		}
-		if len(args) == 0 && r.Intn(2) == 0 {
+		if len(args) == 0 && (s.AllCtor || r.Intn(2) == 0) {
 			// everything the call needs was given to NewFunc: planning a redefinition first (without options either)
 			// changes nothing for the call that follows
 			b.Target.Redefine()
